@@ -10,6 +10,7 @@ import (
 	"github.com/kstenerud/go-concise-encoding/configuration"
 	"github.com/kstenerud/go-concise-encoding/rules"
 	"verif/harness/internal/codec"
+	"verif/harness/internal/env"
 	"verif/harness/internal/ev"
 	"verif/harness/internal/fx"
 )
@@ -71,10 +72,23 @@ func c27Differential(c *fx.Ctx, doc []byte, kind string) {
 	pairs := []struct{ uni, cbe, cte int }{{2, 0, 1}, {5, 3, 4}}
 	f := detectFormat(doc)
 	for _, p := range pairs {
-		for _, mode := range []string{"document", "reader"} {
+		for _, mode := range []string{"document", "reader", "reader-first-read-empty", "reader-one-byte-per-read", "reader-data-with-eof"} {
 			run := func(e readEntry) (string, error) {
-				if mode == "document" {
+				switch mode {
+				case "document":
 					return guard(func() (string, error) { return e.memory(doc) })
+				case "reader-first-read-empty": // a legal (0, nil) before the identifier byte arrives
+					return guard(func() (string, error) {
+						return e.stream(&env.Reader{Data: doc, Script: env.Script{At: map[int]env.Answer{0: {Kind: env.Zero}}}})
+					})
+				case "reader-one-byte-per-read":
+					return guard(func() (string, error) {
+						return e.stream(&env.Reader{Data: doc, Script: env.Script{Default: env.Answer{Kind: env.Short, K: 1}}})
+					})
+				case "reader-data-with-eof":
+					return guard(func() (string, error) {
+						return e.stream(&env.Reader{Data: doc, Script: env.Script{Default: env.Answer{Kind: env.DataEOF}}})
+					})
 				}
 				return guard(func() (string, error) { return e.stream(bytes.NewReader(doc)) })
 			}
